@@ -61,6 +61,11 @@ add('C16', 'E-RUN+gen+E-CHSQL+E-SQLDRV', 'exploration',
     'Trusted: the abstract profile generator and its fold, E-CHSQL for the SQL aggregation step (disagreement between the SQL feed and the direct fold is reported as undecided, not as a violation). Levels beyond the 511 clamp are judged on conservation only.',
     'runtime monitoring: conservation and nesting invariants checked on the outputs of the real parsers, merge and layout code', 'DESIGN §3 C16')
 
+add('C08', 'E-RUN+E-SQLDRV+E-CHSQL+E-REF(logq)', 'translation_validation',
+    'Translation validation by execution for metric queries: every range function (rate, count/bytes over time, bytes_rate, sum/avg/min/max/first/last over unwrapped labels) x vector aggregation x by/without (prefix and suffix) x comparison x topk/bottomk, ranges 1 s..1 h, steps range/4, range, 3 x range, pipelines with line/label filters and json extraction; every pipeline is run below and above the 15 s shortcut threshold. Two comparison points: (i) rows of the executed SQL vs tumbling buckets of the direct evaluator (exact for step <= range; at the two edge buckets both the strict and the widened window are accepted), (ii) points after the real Go post-processors (every output value is a bucket value of its series, output series = series with a non-zero bucket, buckets represented on aligned grids).',
+    'Trusted: E-CHSQL and the direct evaluator (Appendix A/E). Not judged (probes, counted in evidence): vector aggregation without by/without, unwrap_value, unwrap of non-numeric text, unwrap of an extracted label without by(), results that depend on whether the unwrapped label stays in the series identity, ties in topk and first/last, quantile/absent. The bucket starting exactly at the window end is ignored.',
+    'runtime translation validation: generated SQL executed by a reference interpreter and real post-processors vs direct evaluation', 'DESIGN §3 C08')
+
 NOT_APPLICABLE = {
 }
 ALL = ['C%02d' % i for i in range(1, 21)]
